@@ -426,7 +426,7 @@ def native_replay(croot, h, logdir):
     for prof, extra in profiles.items():
         env = ' '.join('%s=%s' % kv for kv in extra.items())
         cmd = 'env %s CARGO_TARGET_DIR=%s cargo kani playback -Z concrete-playback %s -- kani_concrete_playback_%s' % (
-            env, os.path.join(croot, 'target_replay_' + prof), '-Z stubbing' if False else '', h.name)
+            env, os.path.join(croot, 'target_replay_' + prof), '-Z stubbing' if False else '', h.name + ' --test-threads=1')   # stub environments keep state in statics: one replay at a time
         rc, out, dt = sh(cmd, croot, 600, log=os.path.join(logdir, '%s.replay_%s.log' % (h.name, prof)))
         m = re.search(r'test result: (\w+)\. (\d+) passed; (\d+) failed', out)
         if not m:
